@@ -24,6 +24,7 @@ Open Scope Z_scope.
 Inductive edge :=
 | EJsonMissing | EJsonEmpty | ETsvMissing | ESimpleMissing | EPythonMissing
 | ETsvNoRows (dl : delim) (first : option string) (excl : list string) (n : Z)
+| ETsvNested (v : pyval)         (* write_tsv(p, [{'a': v, 'b': 1}]) with a list / dict v, then read_tsv *)
 | EBigInt (w : Z) (z : Z).
 
 Inductive input :=
@@ -78,16 +79,20 @@ Definition cell_text_ok (v : value) : bool := match v with VStr s => text_ok s |
 Definition num_text_ok (s : string) : bool :=
   forallb (fun c => ((32 <=? code c) && (code c <=? 126)) || ((9 <=? code c) && (code c <=? 13))) (s2l s).
 
-(* the int_max_str_digits guard on the inputs of the statement's cases *)
+(* the int_max_str_digits guard on the inputs of the statement's cases: Lim.int_in_limit with the power
+   10^4300 computed once (evaluating it for every integer of every case would take a second each) *)
+Definition lim_bound : Z := Eval vm_compute in 10 ^ int_max_str_digits.
+Definition in_limit (z : Z) : bool := Z.abs z <? lim_bound.
+Definition value_lim (v : value) : bool := match v with VInt z => in_limit z | _ => true end.
 Fixpoint pv_lim (v : pyval) : bool :=
   match v with
-  | PInt z => int_in_limit z
+  | PInt z => in_limit z
   | PList l => forallb pv_lim l
   | PDict l => forallb (fun kv => pv_lim (snd kv)) l
-  | PArr _ sh _ _ => forallb int_in_limit sh
+  | PArr _ sh _ _ => forallb in_limit sh
   | _ => true
   end.
-Definition key_lim (k : key) : bool := match k with KInt z => int_in_limit z | KStr _ => true end.
+Definition key_lim (k : key) : bool := match k with KInt z => in_limit z | KStr _ => true end.
 
 (* what the model says about an edge input; None = the input is not an edge input (regime) *)
 Definition edge_expect (e : edge) : option observed :=
@@ -104,8 +109,11 @@ Definition edge_expect (e : edge) : option observed :=
   | ETsvNoRows dl first excl n =>
       Some (match read_tsv_path ref_csv (FFile (write_tsv ref_csv dl first excl n [])) with
             | Some r => ObsRows r | None => ObsCrash end)
+  | ETsvNested v =>
+      if negb (match v with PList _ | PDict _ => plain (pretty_in v) && wfb v && pv_lim v | _ => false end) then None
+      else Some (ObsRows [[("a"%string, try_make_number (render_nested ref_float v)); ("b"%string, OInt 1)]])
   | EBigInt w z =>
-      if int_in_limit z || negb ((0 <=? w) && (w <=? 4)) then None
+      if in_limit z || negb ((0 <=? w) && (w <=? 4)) then None
       else Some ObsCrash     (* str_int_lim int_max_str_digits z = None: theorem C18_int_limit_exceeded (evaluating
                                  str() of a 4301-digit integer in Coq's binary Z takes minutes) *)
   end.
@@ -136,7 +144,7 @@ Definition check (c : case) : list Z :=
       end
   | InTsv dl first excl n rows, o =>
       if negb (forallb row_ok rows && forallb (fun r => forallb (fun kv => cell_text_ok (snd kv)) r) rows &&
-               forallb (fun r => forallb (fun kv => value_in_limit (snd kv)) r) rows &&
+               forallb (fun r => forallb (fun kv => value_lim (snd kv)) r) rows &&
                (1 <=? n) && (n <=? 12) &&
                (2 <=? zlen (fields_of first excl rows)) && forallb is_ident (fields_of first excl rows))
       then [3] else
@@ -151,7 +159,7 @@ Definition check (c : case) : list Z :=
       end
   | InSimple dl field data, o =>
       if negb (znodup_b (map fst data) && forallb (fun kv => simple_value_ok (snd kv) && cell_text_ok (snd kv)) data &&
-               forallb (fun kv => int_in_limit (fst kv) && value_in_limit (snd kv)) data && is_ident field)
+               forallb (fun kv => in_limit (fst kv) && value_lim (snd kv)) data && is_ident field)
       then [3] else
       match o with
       | ObsSimple of out =>
